@@ -2739,6 +2739,7 @@ def _ensure(pid, *fns):
             SPECS.setdefault(pid, []).append((title, fn))
 
 
+_ensure('C09', ('fetch paths address the slot of the id they are given', spec_world_fetch))
 _ensure('C01', ('Stage::execute / dispatch_par structure', spec_stage_exec))
 _ensure('C03', ('commit part of insert', spec_insert))
 _ensure('C05', ('Stage::execute / dispatch_par structure', spec_stage_exec))
